@@ -6,6 +6,22 @@ props = [json.loads(l) for l in open(os.path.join(here, "properties.jsonl"))]
 
 TECH = "contract-based deductive verification: "
 CHECKS = {
+ "C01": dict(engine="cvc+pyvc",
+   text="The generated kernels <model>_Iq/_Iqxy (kernel_iq.c as clang expands it for the model) are verified against the "
+        "postcondition result' = (pd_start==0 ? 0 : result) + SUM_{s in [pd_start,pd_stop)} [VALID and W>cutoff] W f(P(s)) with P, W "
+        "defined through decode_k(s) = (s/stride_k)%n_k: every dispersity while-loop carries an invariant and a postcondition "
+        "(odometer states A_k/B_k, accumulator sums, parameter-vector frame), the body block is proved against its contract by "
+        "symbolic execution of the same AST nodes (q loop by a map-loop rule, model functions uninterpreted, arguments taken from "
+        "the parameter table), and the mixed-radix lemmas are proved by z3 for the model's MAX_PD (symbolic nq, mesh sizes, "
+        "pd_start/pd_stop, cutoff, up to 5 nested loops).  Python side: DllKernel._call_kernel chunk loop (invariant over the "
+        "100-step chunks), Kernel.Fq/Iq normalisation, scale and background, from the AST of the current tree.",
+   note="doubles are reals, int32 mathematical; quick tier proves 7 representative kernels (1-D/2-D, Fq/Iq, oriented symmetric and "
+        "triaxial, MAX_PD 0..5), thorough all compiled models; _Imagnetic kernels and OpenCL/CUDA back ends not under contract; "
+        "make_kernel_args/make_details (numpy argsort/cumprod) is a bounded run-time contract over all builtin (model, parameter) "
+        "pairs; get_mesh/_pop_par_weights under C10, weights under C02",
+   technique=TECH + "clang JSON AST of the generated kernel -> loop invariants/postconditions -> z3; Python AST -> z3; "
+             "replay on the compiled DLL / real kernels",
+   design="DESIGN.md 6 C01"),
  "C05": dict(engine="cvc",
    text="qac_rotation/qac_apply and qabc_rotation/qabc_apply are executed symbolically from clang's AST of the generated kernel "
         "source (the macro-expanded kernel_iq.c of the current tree) and every matrix entry is proved equal to the corresponding "
